@@ -87,6 +87,12 @@ type Scenario struct {
 	PriorRepeat int `json:"prior_repeat,omitempty"`
 	// PriorReq: the earlier call (Prior) sends this request instead of Req
 	PriorReq *spec.Req `json:"prior_req,omitempty"`
+	// PacketConn (network clients): the connection the dial function returns also implements net.PacketConn (as the *net.UDPConn behind a
+	// `udp://` address does); the clients use Read and Write only, so nothing changes
+	PacketConn bool `json:"packet_conn,omitempty"`
+	// ZeroReadTimeout (serial clients): the client is built with WithSerialReadTimeout(0) - a legal value: the total read timeout is
+	// over at once
+	ZeroReadTimeout bool `json:"zero_read_timeout,omitempty"`
 	// Address (network clients): the address given to Connect ("" = "script:1"). The dial function of the scenario ignores it,
 	// so every form of a stream address (host:port, tcp://, tcp4://, tcp6://, unix://) must behave the same.
 	Address string `json:"address,omitempty"`
@@ -240,6 +246,9 @@ func Run(sc Scenario) (out Outcome) {
 			port = &xport.ScriptPort{S: script}
 		}
 		opts := []modbus.SerialClientOptionFunc{modbus.WithSerialReadTimeout(rt)}
+		if sc.ZeroReadTimeout {
+			opts = []modbus.SerialClientOptionFunc{modbus.WithSerialReadTimeout(0)}
+		}
 		if rec != nil {
 			opts = append(opts, modbus.WithSerialHooks(rec))
 		}
@@ -253,7 +262,12 @@ func Run(sc Scenario) (out Outcome) {
 	} else {
 		script.IdleKind, script.IdleWait = "timeout", 0
 		conf := modbus.ClientConfig{ReadTimeout: rt, WriteTimeout: time.Second,
-			DialContextFunc: func(ctx context.Context, address string) (net.Conn, error) { return &xport.ScriptConn{S: script}, nil }}
+			DialContextFunc: func(ctx context.Context, address string) (net.Conn, error) {
+				if sc.PacketConn {
+					return &xport.ScriptPacketConn{ScriptConn: xport.ScriptConn{S: script}}, nil
+				}
+				return &xport.ScriptConn{S: script}, nil
+			}}
 		if sc.ConnectFails != "" {
 			conf.DialContextFunc = func(ctx context.Context, address string) (net.Conn, error) {
 				if sc.ConnectFails == "typed-nil" {
